@@ -6,7 +6,7 @@ PROP = dict(
     bounded_budget=dict(quick=45, thorough=420),
     assumptions=[],
     trusted_base=['z3 5.1 / cvc5 1.0.3', 'pyvc symbolic executor and its encoding of Python (DESIGN.md section 2.3)', 'CPython 3.12, PLY 3.11 (A-PLY)'],
-    manifest=dict(text='Bounded: 24 catalogue programs x every keyword in 3 spellings, plus C04 programs in 2-5 casings: same parse tree, same interpreted result and final model, same prebuilt instances apart from recorded source text.',
+    manifest=dict(text='Deductive core (tier P, 60 obligations): the interpreter handlers read keyword-bearing text only through lower()/upper() (results are functions of the case-folded text). Bounded: 24 catalogue programs x every keyword in 3 spellings, plus C04 programs in 2-5 casings: same parse tree, same interpreted result and final model, same prebuilt instances apart from recorded source text.',
                   note='PLY (A-PLY).',
-                  technique='bounded stand-in: run-time contracts on the real functions driven by exhaustive small-scope enumeration (labelled bounded, never counted as proved)'),
+                  technique='bounded stand-in (run-time contracts on the real functions driven by small-scope enumeration; labelled bounded, never counted as proved) decides the property sentence; contract-based deductive verification: sidecar contracts on the real functions, verification conditions generated from the current source of /repo on every run by pyvc (Python AST -> z3/cvc5), every obligation discharged function by function for the listed kernel functions, reported separately as tier P'),
 )
